@@ -109,23 +109,31 @@ example : (kspaceModule padKspaceIO .kspace (fun x : Int => x + 1)).run () [⟨s
 theorem crop_shape_seq_eq_spec (ndim : Int) (crop keyVal : List Int) (slices : Int) :
     cropShapeResolve .seq ndim crop keyVal slices = cropShapeSpec ndim crop slices := rfl
 
-/-- FULL STATEMENT (not provable for the current code, see `crop_shape_string_current_violates`):
-`∀ form, cropShapeResolve form ndim crop (crop ++ [1]) slices = cropShapeSpec ndim crop slices`.
-Proved part: string crops agree with the documented shape unless the k-space is 5-D and the crop has two entries. -/
-theorem crop_shape_string_partial (ndim : Int) (crop keyVal : List Int) (slices : Int)
+/-- **string crops (`"(3, 2)"`, `"[3,2]"`) resolve to the documented shape for every rank and every length** (full
+statement; holds since f148874) -/
+theorem crop_shape_string_eq_spec (ndim : Int) (crop keyVal : List Int) (slices : Int) :
+    cropShapeResolve .intString ndim crop keyVal slices = cropShapeSpec ndim crop slices := rfl
+
+/-- the way a fixed crop is written does not matter -/
+theorem crop_shape_string_eq_tuple (ndim : Int) (crop keyVal : List Int) (slices : Int) :
+    cropShapeResolve .intString ndim crop keyVal slices = cropShapeResolve .seq ndim crop keyVal slices := rfl
+
+/-- a crop naming a sample key is `sample[key][:-1]`, as documented (no slice entry is added) -/
+theorem crop_shape_key (ndim : Int) (crop keyVal : List Int) (slices : Int) :
+    cropShapeResolve .key ndim crop keyVal slices = keyVal.dropLast := rfl
+
+/-- the pinned tree took string crops as written: what held then … -/
+theorem crop_shape_string_pinned_partial (ndim : Int) (crop keyVal : List Int) (slices : Int)
     (h : ¬ (ndim = 5 ∧ crop.length = 2)) :
-    cropShapeResolve .intString ndim crop keyVal slices = cropShapeSpec ndim crop slices := by
-  simp only [cropShapeResolve, cropShapeSpec, h, if_false]
+    cropShapeResolvePinned .intString ndim crop keyVal slices = cropShapeSpec ndim crop slices := by
+  simp only [cropShapeResolvePinned, cropShapeSpec, h, if_false]
 
-theorem crop_shape_key_partial (ndim : Int) (crop keyVal : List Int) (slices : Int)
-    (h : ¬ (ndim = 5 ∧ keyVal.dropLast.length = 2)) :
-    cropShapeResolve .key ndim crop keyVal slices = cropShapeSpec ndim keyVal.dropLast slices := by
-  simp only [cropShapeResolve, cropShapeSpec, h, if_false]
+/-- … and the regression witness: `CropKspace("(3, 2)")` on 5-D k-space with 4 slices resolved to `(3, 2)` — applied from
+axis 1 that crops (slice, height) — whereas `CropKspace((3, 2))` resolved to `(4, 3, 2)` -/
+theorem crop_shape_string_pinned_violates :
+    cropShapeResolvePinned .intString 5 [3, 2] [] 4 ≠ cropShapeSpec 5 [3, 2] 4 := by decide
 
-/-- **finding on the current tree**: `CropKspace("(3, 2)")` on 5-D k-space with 4 slices resolves to the crop shape
-`(3, 2)` — applied from axis 1 it crops (slice, height) — whereas `CropKspace((3, 2))` resolves to `(4, 3, 2)`. -/
-theorem crop_shape_string_current_violates :
-    cropShapeResolve .intString 5 [3, 2] [] 4 ≠ cropShapeSpec 5 [3, 2] 4 := by decide
+example : cropShapeResolve .intString 5 [3, 2] [] 4 = [4, 3, 2] := by decide
 
 /-- an axis whose crop entry is the axis length is returned whole (so the list / tuple form really leaves the slice axis
 alone): centre crop … -/
